@@ -772,6 +772,114 @@ def _emitted_value(fi: FuncInfo, role: str, tmpl: str, shape: tuple, arrays: set
     return val, exp, None
 
 
+BOOLEAN_PRINTERS = {"_print_And": "And", "_print_Or": "Or", "_print_Not": "Not", "_print_Xor": "Xor"}
+
+
+def _check_boolean_printer(rep: Report, fi: FuncInfo, cls: ast.ClassDef, meth: ast.FunctionDef, ref: str) -> None:
+    """printer methods for logical connectives: sympy's And / Or are variadic (nested conjunctions are flattened), while the
+    numpy ufuncs logical_and / logical_or take exactly two inputs (a third positional argument is `out`).  The method is
+    interpreted on nodes with 2, 3 and 4 operands (1 for Not); the emitted code is then interpreted on boolean symbols with
+    those numpy semantics and must be equivalent to the connective of all operands."""
+    import sympy as _sp
+
+    from .. import npsem as ns
+
+    kind = BOOLEAN_PRINTERS[meth.name]
+    role = f"{cls.name}.{meth.name}"
+    for n_ops in ((1,) if kind == "Not" else (2, 3, 4)):
+        ops = [ns.Stub(f"E{k}", __str__=lambda k=k: f"E{k}", __kind__=("Boolean",)) for k in range(n_ops)]
+        node = ns.Stub(kind, args=tuple(ops), __kind__=(kind, "BooleanFunction"))
+        sem = ns.NpSem(where=f"{fi.ref}::{role}")
+
+        def do_print(x):
+            if isinstance(x, ns.Stub) and "__str__" in x._attrs:
+                return x._attrs["__str__"]()
+            raise _grammar(fi, meth, f"printer method prints `{x!r}`")
+
+        self_stub = ns.Stub("printer", _print=do_print, doprint=do_print)
+        try:
+            code = sem.run_function(meth, {}, (self_stub, node), outer=ns.Scope({"np": ns.NP}))
+        except ns.Raised as e:
+            raise _grammar(fi, meth, f"printer method raises on {kind} with {n_ops} operands: {e.what}") from None
+        except ns.Unsupported as e:
+            raise _grammar(fi, meth, str(e)) from None
+        if not isinstance(code, str):
+            raise _grammar(fi, meth, "printer method does not return a string")
+        E = [_sp.Symbol(f"E{k}") for k in range(n_ops)]
+
+        def binary(name, f2):
+            def g(*a, **kw):
+                if len(a) != 2 or kw:
+                    raise ns.Raised(f"TypeError: {name}() takes two inputs; a third positional argument is `out` (got {len(a)} positional arguments)")
+                return f2(a[0], a[1])
+
+            return g
+
+        env = {f"E{k}": E[k] for k in range(n_ops)}
+        env.update(
+            {
+                "logical_and": binary("logical_and", _sp.And),
+                "logical_or": binary("logical_or", _sp.Or),
+                "logical_xor": binary("logical_xor", _sp.Xor),
+                "logical_not": lambda a: _sp.Not(a),
+                "bitwise_and": binary("bitwise_and", _sp.And),
+                "bitwise_or": binary("bitwise_or", _sp.Or),
+                "invert": lambda a: _sp.Not(a),
+            }
+        )
+        want = {"And": _sp.And, "Or": _sp.Or, "Not": _sp.Not, "Xor": _sp.Xor}[kind](*E)
+        sem2 = ns.NpSem(where=f"{fi.ref}::{role} (emitted code)")
+        problem = None
+        try:
+            tree = ast.parse(code, mode="eval").body
+            val = _eval_bool(tree, env)
+        except ns.Raised as e:
+            problem = f"the emitted code `{code}` fails: {e.what}"
+            val = None
+        except SyntaxError:
+            problem = f"the emitted code `{code}` is not an expression"
+            val = None
+        if problem is None and _sp.simplify_logic(_sp.Equivalent(val, want)) is not _sp.true:
+            problem = f"the emitted code `{code}` computes `{val}`, not `{want}`"
+        _ob(
+            rep,
+            "boolean-printer",
+            ref + f".{role}",
+            f"{n_ops}-operands",
+            problem is None,
+            f"{kind} of {n_ops} operand(s): {problem}; with numpy semantics the third operand of logical_and/logical_or is taken as `out` and silently dropped from the condition",
+            line=meth.lineno,
+            tag=f"{role}:{n_ops}",
+        )
+
+
+def _eval_bool(e: ast.AST, env: dict):
+    """boolean value of emitted printer code: names, calls of the functions in env, `&`, `|`, `~`, parentheses"""
+    import sympy as _sp
+
+    from .. import npsem as ns
+
+    if isinstance(e, ast.Name):
+        if e.id in env:
+            return env[e.id]
+        raise ns.Raised(f"NameError: {e.id}")
+    if isinstance(e, ast.BinOp) and isinstance(e.op, (ast.BitAnd, ast.BitOr, ast.BitXor)):
+        l, r = _eval_bool(e.left, env), _eval_bool(e.right, env)
+        return {ast.BitAnd: _sp.And, ast.BitOr: _sp.Or, ast.BitXor: _sp.Xor}[type(e.op)](l, r)
+    if isinstance(e, ast.UnaryOp) and isinstance(e.op, ast.Invert):
+        return _sp.Not(_eval_bool(e.operand, env))
+    if isinstance(e, ast.Call):
+        fn = e.func
+        nm = fn.id if isinstance(fn, ast.Name) else ast.unparse(fn)
+        args = [_eval_bool(a, env) if not isinstance(a, (ast.List, ast.Tuple)) else [_eval_bool(x, env) for x in a.elts] for a in e.args]
+        if nm.endswith(".reduce") and nm.split(".")[0] in ("logical_and", "logical_or") and len(args) == 1 and isinstance(args[0], list):
+            return (_sp.And if "and" in nm else _sp.Or)(*args[0])
+        if nm in env and callable(env[nm]):
+            return env[nm](*args)
+        raise AnalysisError(f"C11: emitted boolean code calls `{nm}`, which is not modelled")
+    raise AnalysisError(f"C11: emitted boolean code `{ast.unparse(e)[:60]}` is outside the modelled subset")
+
+
 def _numpy_has(name: str) -> bool:
     try:
         import numpy  # trusted base (the namespace lambdify receives as "numpy"); never the repo
@@ -893,6 +1001,9 @@ def _backend_facts(rep: Report, ix, tag: str, fi: FuncInfo, full: bool) -> dict:
     emitted = {}
     for cv in it.classes:
         for m in cv.node.body:
+            if isinstance(m, ast.FunctionDef) and m.name in BOOLEAN_PRINTERS:
+                _check_boolean_printer(rep, fi, cv.node, m, ref)
+                continue
             if isinstance(m, ast.FunctionDef) and m.name.startswith("_print_"):
                 tmpl, n = _printer_emission(fi, cv.node, m)
                 role = f"{cv.node.name}.{m.name}"
